@@ -74,6 +74,11 @@ CLAIMED["C11"] = dict(
     text="punctuation_delete, ptb_delete_traces (keep, keepall, keepcoindex, slash), insert_terminals, substitute_terminals (valid, zero, out-of-range, duplicate indices, foreign sentence ids, with/without quiet; fresh file name per case), trees.delete_terminal and filter_by_length are applied to random trees in which punctuation and traces occur first, last, as only child of unary chains and as sole content of constituents. The result must be the parentless root of a well-formed tree equal to the reference: untouched tokens keep word, POS and order, numbering 1..n, token-less constituents pruned, inserted tokens at the requested final positions under the root, out-of-range requests ignored, duplicates rejected with ValueError, deleted punctuation reported with original positions, no gap index and (unless keepcoindex) no co-index on any constituent label, kept traces swapped as documented.",
     note="Trusted: reference edits in checks/C11.py. insert_terminals inserts AT the index (pinned by the repository's test). With slash only token-level claims are checked. Labels and trace words are built from parts so expected labels are known by construction.",
     ref="DESIGN.md section 2, C11")
+CLAIMED["C02"] = dict(
+    tech="Hypothesis trees built through the Tree API with hostile alphabets, None fields and option subsets; output decoded by independent decoders (own export/bracket parsers, xml.etree) and compared with the model after a reference decoration function; format invariants checked in the decoder",
+    text="Random trees (all shapes, gaps, XML-special / parenthesis / non-ASCII / astral characters, field lengths 7/8/15/16, lemma/morph/edge present or None, head and split flags) are written by all five writers under random subsets of the documented output options. Independent decoders must recover the same sentence id, tokens, order, decorated labels, edges and dominance; the export decoder enforces tokens-first, unique consecutive numbering from 500, resolving parents, children numbered below parents and matching #BOS/#EOS; TIGER-XML must parse; bracket formats must show the documented parenthesis names in tree and sentence part; the bracket writer must refuse exactly the discontinuous trees (or write nothing under brackets_skipdisco); terminals output must be exactly the sentence.",
+    note="Trusted: decoders in vlib/codecs_tree.py, xml.etree. Not generated: whitespace/control characters, empty fields, words of the form #ddd/#BOS/#EOS, parentheses in constituent labels (formats cannot carry them). TIGER-XML is written without label-decoration options.",
+    ref="DESIGN.md section 2, C02")
 PENDING_REASON = "check not built yet in this round (planned, see DESIGN.md section 6); not claimed until it is quiet on the unchanged tree"
 
 
